@@ -73,6 +73,7 @@ R_not_not == { I("verit_not_not", <<>>, <<Neg(Neg(Neg(A))), A>>) : A \in FS1 }
 R_and_pos == UNION { { I("verit_and_pos", <<>>, <<Neg(AndN(fs)), fs[k]>>) : k \in 1..Len(fs) } : fs \in FSN }
 R_and_neg == { I("verit_and_neg", <<>>, <<AndN(fs)>> \o Neg1(fs)) : fs \in FSN }
 R_or_pos == { I("verit_or_pos", <<>>, <<Neg(OrN(fs))>> \o fs) : fs \in FSN }
+            \cup { NM(I("verit_or_pos", <<>>, <<Conj(vp, vq), vq>>), "nm.shape"), NM(I("verit_or_pos", <<>>, <<Imp(vp, Disj(vq, vr)), vq, vr>>), "nm.shape") }
 R_or_neg == UNION { { I("verit_or_neg", <<>>, <<OrN(fs), Neg(fs[k])>>) : k \in 1..Len(fs) } : fs \in FSN }
 R_implies_pos == { I("verit_implies_pos", <<>>, <<Neg(Imp(s[1], s[2])), Neg(s[1]), s[2]>>) : s \in FS2 }
 R_implies_neg1 == { I("verit_implies_neg1", <<>>, <<Imp(s[1], s[2]), s[1]>>) : s \in FS2 }
@@ -145,7 +146,8 @@ R_eq_congruent_pred == { I("verit_eq_congruent_pred", <<>>, <<Neg(Eqa(ca, cb)), 
                          I("verit_eq_congruent_pred", <<>>, <<Neg(Eqa(ca, cb)), F1(pP, ca), Neg(F1(pP, cb))>>),
                          I("verit_eq_congruent_pred", <<>>, <<Neg(Eqa(ca, cb)), Neg(Eqa(cc, cd)), Neg(F2(pQ, ca, cc)), F2(pQ, cb, cd)>>),
                          NM(I("verit_eq_congruent_pred", <<>>, <<Neg(Eqa(ca, cb)), Neg(Eqa(cc, cd)), Neg(F3(pT, ca, cc, ca)), F3(pT, cb, cd, cc)>>), "nm.arity"),
-                         NM(I("verit_eq_congruent_pred", <<>>, <<Neg(Eqa(ca, cb)), Neg(F2(pQ, ca, ca)), F2(pQ, cb, cc)>>), "nm.arity") }
+                         NM(I("verit_eq_congruent_pred", <<>>, <<Neg(Eqa(ca, cb)), Neg(F2(pQ, ca, ca)), F2(pQ, cb, cc)>>), "nm.arity"),
+                         NM(I("verit_eq_congruent_pred", <<>>, <<Neg(F2(pQ, ca, cb)), Neg(F1(pP, ca)), F1(pP, cb)>>), "nm.noteq") }
 R_trans == { I("verit_trans", <<PS(Eqa(ca, cb)), PS(Eqa(cb, cc))>>, <<Eqa(ca, cc)>>),
              I("verit_trans", <<PS(Eqa(ca, cb)), PS(Eqa(cb, cc)), PS(Eqa(cc, cd))>>, <<Eqa(ca, cd)>>),
              I("verit_trans", <<PS(Iff(vp, vq)), PS(Iff(vq, vr))>>, <<Iff(vp, vr)>>) }
@@ -226,6 +228,9 @@ R_ac_simp == UNION { { S("verit_ac_simp", Conj(Conj(s[1], s[2]), s[1]), Conj(s[1
                        S("verit_ac_simp", Disj(s[1], Disj(s[2], s[1])), Disj(s[1], s[2])),
                        S("verit_ac_simp", Disj(Disj(s[1], s[2]), Disj(s[3], s[2])), OrN(<<s[1], s[2], s[3]>>)),
                        S("verit_ac_simp", Conj(s[1], Conj(Conj(s[2], s[3]), s[1])), AndN(<<s[1], s[2], s[3]>>)) } : s \in {<<vp, vq, vr>>, <<Neg(vp), vq, Imp(vp, vr)>>} }
+             \cup { S("verit_ac_simp", Conj(vp, EqT(IntT, Plus(IntT, ix, iy), Num(IntT, 0))), Conj(vp, EqT(IntT, Plus(IntT, ix, iy), Num(IntT, 0)))),
+                    NM(S("verit_ac_simp", Conj(vp, EqT(IntT, Plus(IntT, ix, iy), Num(IntT, 0))), Conj(vp, EqT(IntT, Minus(IntT, ix, iy), Num(IntT, 0)))), "nm.arith"),
+                    NM(S("verit_ac_simp", Disj(vp, Lt(IntT, Times(IntT, ix, iy), Num(IntT, 1))), Disj(vp, Lt(IntT, Plus(IntT, ix, iy), Num(IntT, 1)))), "nm.arith") }
 R_connective_def == UNION { { S("verit_connective_def", Iff(s[1], s[2]), Conj(Imp(s[1], s[2]), Imp(s[2], s[1]))),
                               S("verit_connective_def", IteB(s), Conj(Imp(s[1], s[2]), Imp(Neg(s[1]), s[3]))),
                               S("verit_connective_def", Xor(s[1], s[2]), Disj(Conj(Neg(s[1]), s[2]), Conj(s[1], Neg(s[2])))) } : s \in FS3 }
@@ -303,11 +308,16 @@ R_forall_inst == { IX("verit_forall_inst", <<>>, <<Disj(Neg(All(TA, F1(pP, B0)))
                         IX("verit_forall_inst", <<>>, <<Disj(Neg(All(TA, Eqa(F1(ff, B0), cb))), Eqa(cb, F1(ff, ca)))>>, QX(<< <<"v0", ca>> >>)),
                         IX("verit_forall_inst", <<>>, <<Disj(Neg(All(TA, Imp(F1(pP, B0), F1(pR, B0)))), Imp(F1(pP, cc), F1(pR, cc)))>>, QX(<< <<"v0", cc>> >>)) }
 R_qnt_simplify == { S("verit_qnt_simplify", All(TA, TrueC), TrueC), S("verit_qnt_simplify", All(TA, FalseC), FalseC),
-                    S("verit_qnt_simplify", Ex(TA, FalseC), FalseC), S("verit_qnt_simplify", All(TA, F1(pP, ca)), F1(pP, ca)) }
+                    S("verit_qnt_simplify", Ex(TA, FalseC), FalseC), S("verit_qnt_simplify", All(TA, F1(pP, ca)), F1(pP, ca)),
+                    NM(S("verit_qnt_simplify", All(TA, F1(pP, B0)), F1(pP, w0)), "nm.freevar"),
+                    NM(S("verit_qnt_simplify", Ex(TA, F1(pP, B0)), F1(pP, w0)), "nm.freevar") }
 R_qnt_rm_unused == { S("verit_qnt_rm_unused", All(TA, All(TA, F1(pP, B1x))), All(TA, F1(pP, B0))),
                      S("verit_qnt_rm_unused", All(TA, F1(pP, ca)), F1(pP, ca)),
                      S("verit_qnt_rm_unused", Ex(TA, Ex(TA, F1(pP, B1x))), Ex(TA, F1(pP, B0))),
-                     S("verit_qnt_rm_unused", All(TA, All(TA, F2(pQ, B1x, B0))), All(TA, All(TA, F2(pQ, B1x, B0)))) }
+                     S("verit_qnt_rm_unused", All(TA, All(TA, F2(pQ, B1x, B0))), All(TA, All(TA, F2(pQ, B1x, B0)))),
+                     S("verit_qnt_rm_unused", All(TA, Ex(TA, All(TA, F2(pQ, <<"bound", 2>>, B0)))), All(TA, All(TA, F2(pQ, B1x, B0)))),
+                     NM(S("verit_qnt_rm_unused", All(TA, F1(pP, B0)), Ex(TA, F1(pP, B0))), "nm.quant"),
+                     NM(S("verit_qnt_rm_unused", All(TA, Ex(TA, F2(pQ, B1x, B0))), Ex(TA, All(TA, F2(pQ, B1x, B0)))), "nm.quant") }
 R_qnt_join == { S("verit_qnt_join", All(TA, All(TA, F2(pQ, B1x, B0))), All(TA, All(TA, F2(pQ, B1x, B0)))) }
 R_qnt_cnf == { I("verit_qnt_cnf", <<>>, <<Disj(Neg(All(TA, Conj(F1(pP, B0), F1(pR, B0)))), All(TA, F1(pP, B0)))>>),
                I("verit_qnt_cnf", <<>>, <<Disj(Neg(All(TA, Imp(F1(pP, B0), F1(pR, B0)))), All(TA, Disj(Neg(F1(pP, B0)), F1(pR, B0))))>>),
